@@ -37,6 +37,11 @@ def cases(tier, seed):
         d = len(sin)
         for fb, b in (([2], []), ([], [2]), ([2, 1], [2]), ([3], [2, 3])):
             cs.append({'scen': 'tt_layer', 's': {'size_in': sin, 'size_out': sout, 'rank': [1] + [2] * (d - 1) + [1], 'batch': b, 'first_batch': fb, 'init': 'He', 'dtype': 'float64', 'call': True}})
+    # a registered core replaced by a new Parameter object
+    for sin, sout in [([2, 3], [3, 1]), ([3], [2]), ([2, 2, 2], [1, 2, 2])]:
+        d = len(sin)
+        for k in (0, d - 1):
+            cs.append({'scen': 'tt_layer', 's': {'size_in': sin, 'size_out': sout, 'rank': [1] + [2] * (d - 1) + [1], 'batch': [2], 'init': 'He', 'dtype': 'float64', 'call': True, 'replace_core': k}})
     # precision changed after construction
     for sin, sout in [([2, 3], [3, 1]), ([3], [2])]:
         d = len(sin)
